@@ -274,6 +274,44 @@ def elementwise_cases(rnd, n, prefix="E", funcs=None, styles=("small", "boundary
     return out
 
 
+def scalar_operand_cases(rnd, n, prefix="SC"):
+    """Binary element-wise calls with a Python scalar operand (both orders, functions and operators), including signed
+    zeros and Python-equal scalars of different types; a third of the cases use two different scalars one after the
+    other in one program (the second result must not depend on the first call)."""
+    out = []
+    funcs = ["add", "subtract", "multiply", "divide", "less", "divide", "greater", "equal", "multiply", "not_equal", "divide", "atan2", "pow", "less_equal"]
+    fscal = ["0.0", "-0.0", "1.0", "-1.0", "2.5", "1e-30", "float('inf')"]
+    iscal = ["0", "1", "-1", "3", "True", "False"]
+    i = 0
+    while len(out) < n:
+        f = funcs[i % len(funcs)]
+        i += 1
+        d = rnd.choice(["float32", "float64"] if f in ("divide", "atan2") else ["float32", "float64", "int32", "int64"])
+        b = ops.base(d)
+        isf = b in ops.FLOATS
+        pool = fscal + iscal[:4] if isf else iscal[:4]
+        s1 = rnd.choice(pool)
+        if isf and rnd.random() < 0.3:
+            s1 = rnd.choice(["0.0", "-0.0"])        # the sign of a zero scalar is observable (x / s, x * s, atan2)
+        x = ops.tensor(rnd, d, ops.rand_shape(rnd, 2, 0.05), "small")
+        if f == "pow":
+            s1 = rnd.choice(["2", "3", "0", "1"]) if not isf else rnd.choice(["2.0", "0.5", "0.0", "-0.0", "1.0"])
+            x["data"] = [ops.fhex(abs(float.fromhex(v)) if v != "nan" else 1.0) if isf else abs(v) % 5 for v in x["data"]]
+        first = rnd.random() < 0.5
+        call = (lambda s_: f"x {OPSYM[f]} {s_}" if not first else f"{s_} {OPSYM[f]} x") if f in OPSYM and rnd.random() < 0.5 else \
+               (lambda s_: f"ndx.{f}(x, {s_})" if not first else f"ndx.{f}({s_}, x)")
+        ncall = (lambda s_: np_call(f, ["x", s_]) if not first else np_call(f, [s_, "x"]))
+        impl, orc = f"out = {call(s1)}", f"out = {ncall(s1)}"
+        meta = {"func": f, "dtype": d, "dclass": dclass(d), "style": "python-scalar", "scalar": s1}
+        if (rnd.random() < 0.34 or s1 in ("0.0", "-0.0")) and f != "pow":
+            twin = {"0.0": "-0.0", "-0.0": "0.0", "1.0": "1", "1": "True" if not isf else "1.0", "0": "False" if not isf else "-0.0", "True": "1", "False": "0"}.get(s1, "0.0" if isf else "0")
+            impl = f"u_ = {call(twin)}; out = {call(s1)}"
+            meta["history"] = f"scalar {twin} then {s1}"
+        c = mkcase(f"{prefix}-{len(out)}-{f}", {"x": x}, impl, orc, meta, rnd, ew_tol(f, d), check_dtype=False)
+        out.append(c)
+    return out
+
+
 def constant_operand_cases(rnd, n, prefix="K", funcs=None):
     """Binary element-wise calls where one operand is a data-holding one-element constant (all 0/False or all 1/True,
     rank 0-2) and the other has any rank and may be a placeholder with dynamic extents: the shapes on which
@@ -497,6 +535,22 @@ def sorting_cases(rnd, n, prefix="S", max_len=40, dtypes=None):
             sh = ops.rand_shape(rnd, 3, 0.1, (1, 2, 3), min_rank=1)
             x = vec(sh, "small")
             out.append(mkcase(cid, {"x": x}, "out = list(ndx.nonzero(x))", "out = [a.astype(np.int64) for a in np.nonzero(x)]", meta, rnd, symbolic=False))
+        elif rnd.random() < 0.45:  # where: three-way broadcasting against a uniform / constant condition
+            r = rnd.randint(1, 2)
+            k = rnd.choice([2, 3, 4])
+            xs = [rnd.choice([1, 1, k]) for _ in range(r)]
+            csh = [rnd.choice([k, 1]) if s == 1 else s for s in xs]
+            csh = csh[rnd.randint(0, len(csh) - 1):] if rnd.random() < 0.3 else csh
+            if rnd.random() < 0.3:
+                csh = [k] + csh if len(csh) < 3 else csh
+            cv = rnd.choice(["true", "false", "mixed"])
+            n_c = ops.prod(csh)
+            cdata = [True] * n_c if cv == "true" else [False] * n_c if cv == "false" else [j % 2 == 0 for j in range(n_c)]
+            ins = {"c": {"dtype": "bool", "shape": csh, "data": cdata}, "x": vec(xs, "small"), "y": vec(xs, "small")}
+            meta["cond"] = cv + "-uniform" if cv != "mixed" else "mixed"
+            c_ = mkcase(cid, ins, "out = ndx.where(c, x, y)", "out = np.where(c, x, y)", meta, rnd)
+            c_["lazy_subsets"] = [{"names": ["x", "y"]}, {"names": ["x", "y", "c"]}, {"names": ["x"]}]
+            out.append(c_)
         else:  # where
             a, bsh = ops.broadcast_pair(rnd, 3, 0.1)
             csh = [1 if rnd.random() < 0.3 else s for s in (a if len(a) >= len(bsh) else bsh)]
@@ -640,6 +694,14 @@ def setitem_cases(rnd, n, prefix="W", max_rank=3, dtypes=("int64", "float32", "b
             meta["form"] = "basic-scalar"
             out.append(mkcase(cid, {"x": x}, f"y = x.copy(); y[{src}] = {scalar}; out = y",
                               f"y = x.copy(); y[{src}] = {scalar}; out = y", meta, rnd, symbolic=False, observe_inputs=True))
+        elif c < 0.64 and ops.base(d) not in ("bool", "utf8"):
+            # array update of ANOTHER dtype (cast on assignment); the update array itself is observed afterwards
+            src = idx_src(rand_index(rnd, sh))
+            od = "float64" if ops.base(d) != "float64" else "int32"
+            meta["form"] = "basic-array-other-dtype"
+            mk_u = f"(np.arange(int(np.prod(sel.shape) if len(sel.shape) else 1)).reshape(sel.shape) % 5).astype(np.{od})"
+            out.append(mkcase(cid, {"x": x}, f"y = x.copy(); sel = y[{src}]; u = ndx.asarray({mk_u}); y[{src}] = u; out = [y, u, u + 1]",
+                              f"y = x.copy(); sel = y[{src}]; u = {mk_u}; y[{src}] = u; out = [y, u, u + 1]", meta, rnd, symbolic=False))
         elif c < 0.8:
             # array update, broadcast to the selection
             items = rand_index(rnd, sh)
